@@ -76,11 +76,17 @@ impl<'a> ser::Serializer for &'a mut Ser {
 	type Error = CodecError;
 	type SerializeSeq = Compound<'a>;
 	type SerializeTuple = Compound<'a>;
+
 	type SerializeTupleStruct = Compound<'a>;
 	type SerializeTupleVariant = Compound<'a>;
 	type SerializeMap = Compound<'a>;
 	type SerializeStruct = Compound<'a>;
 	type SerializeStructVariant = Compound<'a>;
+
+	/// the positional flavour stands for the compact binary formats (bincode, postcard): not human readable
+	fn is_human_readable(&self) -> bool {
+		self.flavour == Flavour::Named
+	}
 
 	fn serialize_bool(self, v: bool) -> Result<(), CodecError> {
 		self.out.push(Tok::Bool(v));
@@ -473,6 +479,11 @@ impl<'de, 'a, 't> de::VariantAccess<'de> for Enum<'a, 't> {
 
 impl<'de, 'a, 't> de::Deserializer<'de> for &'a mut De<'t> {
 	type Error = CodecError;
+
+	/// the positional flavour stands for the compact binary formats (bincode, postcard): not human readable
+	fn is_human_readable(&self) -> bool {
+		self.flavour == Flavour::Named
+	}
 
 	fn deserialize_any<V: Visitor<'de>>(self, visitor: V) -> Result<V::Value, CodecError> {
 		match self.bump()? {
